@@ -6,15 +6,91 @@ package main
 
 import (
 	"bufio"
+	"bytes"
 	"encoding/hex"
 	"fmt"
 	"os"
 	"sort"
 	"strconv"
 	"strings"
+	"sync"
 
 	"github.com/KafScale/platform/pkg/lfs"
 )
+
+// hand-out stability (like C09): every slice EncodeEnvelope ever returned, with a private copy of
+// the bytes it held when it was returned.  Re-checked after every later encode.
+type handout struct {
+	live []byte
+	seen []byte
+}
+
+var (
+	handed []handout
+	envs   []lfs.Envelope // every envelope that encoded successfully (for the concurrent run)
+)
+
+func allStable() bool {
+	for _, h := range handed {
+		if !bytes.Equal(h.live, h.seen) {
+			return false
+		}
+	}
+	return true
+}
+
+// parRun re-encodes every envelope seen so far from `workers` goroutines; each goroutine keeps
+// the slices it was handed and compares them with the serial result only after all are done.
+func parRun(workers int) string {
+	if len(envs) == 0 {
+		return "par ok=true"
+	}
+	want := make([][]byte, len(envs))
+	for i, e := range envs {
+		b, err := lfs.EncodeEnvelope(e)
+		if err != nil {
+			return "par ok=false"
+		}
+		want[i] = append([]byte(nil), b...)
+	}
+	bad := make([]bool, workers)
+	var wg sync.WaitGroup
+	for w := 0; w < workers; w++ {
+		wg.Add(1)
+		go func(w int) {
+			defer wg.Done()
+			defer func() {
+				if r := recover(); r != nil {
+					bad[w] = true
+				}
+			}()
+			got := make([][]byte, len(envs))
+			for round := 0; round < 3; round++ {
+				for i := range envs {
+					j := (i + w*7) % len(envs)
+					b, err := lfs.EncodeEnvelope(envs[j])
+					if err != nil {
+						bad[w] = true
+						return
+					}
+					got[j] = b
+				}
+				for j := range envs {
+					if !bytes.Equal(got[j], want[j]) {
+						bad[w] = true
+					}
+				}
+			}
+		}(w)
+	}
+	wg.Wait()
+	for _, b := range bad {
+		if b {
+			return "par ok=false"
+		}
+	}
+	return fmt.Sprintf("par ok=%v", allStable())
+}
 
 func unhex(s string) (string, bool) {
 	if s == "-" {
@@ -99,7 +175,21 @@ func doLine(f []string) (out string) {
 		if err != nil {
 			return "enc err"
 		}
-		return "enc " + hex.EncodeToString(b)
+		out := "enc " + hex.EncodeToString(b) // hex of what was returned NOW
+		if len(handed) >= 512 {               // bound the re-check cost: keep the oldest 256 and the newest 256
+			handed = append(handed[:256], handed[len(handed)-255:]...)
+		}
+		handed = append(handed, handout{live: b, seen: append([]byte(nil), b...)})
+		if len(envs) < 400 {
+			envs = append(envs, env)
+		}
+		return fmt.Sprintf("%s stable=%v", out, allStable())
+	case f[0] == "par" && len(f) == 2:
+		n, err := strconv.Atoi(f[1])
+		if err != nil || n < 1 || n > 64 {
+			return "bad-op"
+		}
+		return parRun(n)
 	}
 	return "bad-op"
 }
